@@ -66,3 +66,9 @@ Definition chain_known (c : chainrow) : bool :=
   if returns nb && returns py then
     outcome_eqb nb py || (mixed_flavor srcs && outcome_eqb (strip nb) (strip py))
   else true.
+
+(* the compiled path of a given set of operations (used by the properties that state laws of those operations: the
+   laws are proved for the interpreter's compute variants; this makes them hold in compiled code too) *)
+Definition agree_on (names : list name) : bool :=
+  forallb (fun r => if mem_name (row_name r) names then agree_known r else true) nb_tab.
+Definition count_on (names : list name) : nat := count (fun r => mem_name (row_name r) names && both_return r) nb_tab.
